@@ -296,8 +296,24 @@ func C05(p *load.Prog, r *oblig.Run) {
 			parsed = c
 			break
 		}
+		zeroReturn := false
 		if parsed == nil {
 			unknown = "the returned time is not derived from one parse call through AddDate/Add"
+			// the zero time handed out as such (time.Time{})
+			switch z := cur.(type) {
+			case *ssa.Const:
+				zeroReturn = z.Value == nil
+			case *ssa.UnOp:
+				if al, isAl := z.X.(*ssa.Alloc); isAl && z.Op == token.MUL {
+					stores := 0
+					for _, ref := range *al.Referrers() {
+						if st, isSt := ref.(*ssa.Store); isSt && st.Addr == ssa.Value(al) {
+							stores++
+						}
+					}
+					zeroReturn = stores == 0
+				}
+			}
 		}
 		// the text handed to the parser: built in Date.Time itself, or by a helper that is handed the date
 		type combo struct {
@@ -449,6 +465,8 @@ func C05(p *load.Prog, r *oblig.Run) {
 				seenB[kb+"|"+got] = true
 				o := r.Add("R05.b", "adjustment for "+kb, p.Pos(tm.Pos()), "end-of-range adjustment when "+kb)
 				switch {
+				case zeroReturn && Z == "f" && Y != "0":
+					o.Fail("on a path on which the text WAS parsed as a calendar date (" + kb + ") Date.Time returns the zero time instead of the bound: the period of a valid date ends (or starts) at year 1 - its end lies before its start")
 				case unknown != "":
 					o.Unknown(unknown)
 				case zeroByValue && E == "t" && Z == "t" && Y != "0":
